@@ -23,6 +23,17 @@ def bin_records(rng, w, nrec, nmax=6):
         recs.append(struct.pack('<II', i, j) + rand_label(rng, w))
     return recs
 
+def bin_big_cases(rng, count):
+    """unlabelled / labelled files longer than a stream buffer (8192 bytes and more), whole and cut near the end and near the buffer boundary"""
+    out = []
+    for t in range(count):
+        cls = rng.choice(['D', 'U']); w = rng.choice(['0', '0', '1', '4']); nrec = rng.choice([1023, 1024, 1025, 1100, 2050])
+        if t == 0: w, nrec = '0', 1100          # at least one unlabelled file well past the first buffer refill
+        recs = [struct.pack('<II', k % 7, (k * 3 + 1) % 7) + rand_label(rng, w) for k in range(nrec)]
+        data = b''.join(recs)
+        for cut in {len(data), len(data) - 1, len(data) - 5, 8192, 8191, 8193, 8200}:
+            if 0 <= cut <= len(data): out.append('BIN %s %s : %s' % (cls, w, hexs(data[:cut])))
+    return out
 def bin_cases(rng, count, cuts):
     out = []
     for _ in range(count):
@@ -63,7 +74,7 @@ def text_file(rng, lk, names, nmax=8):
     pool = [b'alice', b'bob', b'x', b'node_7', b'0', b'42', b'htag', b'Z', b'#tag', b'#', b'a#b']
     for _ in range(rng.randint(0, 8)):
         r = rng.random()
-        if r < 0.15: lines.append(b'#' + rng.choice([b'', b' comment 1 2', b' 3 4 5', b'\t#']))
+        if r < 0.15: lines.append(b'#' + rng.choice([b'', b' comment 1 2', b' 3 4 5', b'\t#', b' ' + b'x' * rng.choice([254, 255, 256, 300, 1000]), b' 1 2 ' * rng.choice([60, 120])]))
         else:
             if names: a, b = rng.choice(pool), rng.choice(pool)
             else: a, b = str(rng.randrange(nmax)).encode(), str(rng.choice([rng.randrange(nmax), rng.randrange(nmax)])).encode()
